@@ -21,9 +21,13 @@ def assumptions(pid):
 
 FRAME_PATTERNS = [r"\bMutex\b", r"\bRwLock\b", r"\bRefCell\b", r"\bCell\s*<", r"\bUnsafeCell\b", r"\bAtomic[A-Z]\w*", r"\bOnceCell\b",
                   r"\bOnceLock\b", r"\bLazyLock\b", r"\bLazyCell\b", r"\blazy_static!", r"\bthread_local!", r"\bstatic\s+mut\b", r"\bCondvar\b",
-                  r"\bmpsc\b", r"\bunsafe\b"]
+                  r"\bmpsc\b", r"\bunsafe\b",
+                  # output / environment / files / clocks: a call's result may only depend on its arguments, and nothing is printed
+                  r"\b(e?print(ln)?|dbg)!", r"\bstd::(fs|env|io|net|process|time)\b", r"\b(stdout|stderr|stdin)\s*\(", r"\bFile::", r"\bOpenOptions\b",
+                  r"\bInstant\b", r"\bSystemTime\b", r"\brand::"]
 FRAME_FILES = ["src/lang/mod.rs", "src/lang/en/mod.rs", "src/lang/fr/mod.rs", "src/lang/es/mod.rs", "src/lang/pt/mod.rs", "src/lang/it/mod.rs",
-               "src/lang/de/mod.rs", "src/lang/nl/mod.rs", "src/tokenizer.rs", "src/word_to_digit.rs", "src/digit_string.rs", "src/lib.rs"]
+               "src/lang/de/mod.rs", "src/lang/nl/mod.rs", "src/tokenizer.rs", "src/word_to_digit.rs", "src/digit_string.rs", "src/lib.rs",
+               "src/error.rs"] + ["src/lang/%s/vocabulary.rs" % c for c in ("en", "fr", "es", "pt", "it", "de", "nl")]
 
 
 def strip_noncode(text):
@@ -46,7 +50,7 @@ def side_checks(pid, tier, seed):
         path = os.path.join(gen.REPO, rel)
         oid = f"frame::{rel}::no-interior-mutability"
         o = {"id": oid, "fn": rel, "kind": "frame", "props": ["C14"], "unit": "frame", "src": rel,
-             "text": "no Mutex/RwLock/RefCell/Cell/atomics/once-cells/lazy statics/static mut/thread_local/unsafe in non-test code", "status": "discharged"}
+             "text": "no Mutex/RwLock/RefCell/Cell/atomics/once-cells/lazy statics/static mut/thread_local/unsafe, no printing, file, environment, clock or random access in non-test code", "status": "discharged"}
         if not os.path.exists(path):
             o["status"] = "undecided"
             o["diag"] = [{"msg": "file not found (lost anchor)"}]
